@@ -262,3 +262,15 @@ package utils
 //@   pure
 //@   safe
 //@ end
+
+// ---- checksummed chunk reader (C18): bytes of a checksummed chunk are handed
+// out only after their CRC matched the stored checksum.
+//@ ghostdecl cpath int
+//@ func (*ChecksumFile).readChunkAt
+//@   props C18
+//@   requires csf != nil && ghost(0, "cpath") == 0
+//@   site call readUint32At #3:
+//@     ghostset ghost(0, "cpath") = 1
+//@   ensures [crc-gate] implies(ghost(0, "cpath") == 1 && result0 > 0, result0 <= len(buf) && uf("crc32", uint32, buf[:result0]) == checksum)
+//@   ensures [length-fits] implies(ghost(0, "cpath") == 1, result0 <= len(buf))
+//@ end
